@@ -223,7 +223,7 @@ def rule_c17_columns(prog: Program, col: Collector) -> None:
         br = tuple((id(f[3]), f[2]) for f in ev.ctx if f[0] == "if")
         by_branch.setdefault(br, []).append((ev, a))
     col.check(len(by_branch) >= 1 and all(a is not None for _, a in st), ref.where(), ref.short, "set_values stores are of the form _values[rows, col]",
-              construct="set_values-form", necessity="")
+              construct="set_values-form", necessity="a store that is not a (rows, column) access of the table cannot be checked for column discipline")
     for br, items in by_branch.items():
         cols = {a[1]: ev for ev, a in items if a is not None}
         okb = set(cols) == {U, L, K} and cols[U].value == vals and cols[L].value == vals and cols[K].value == ("const", 1)
@@ -248,6 +248,39 @@ def rule_c17_columns(prog: Program, col: Collector) -> None:
                       "selective set_values addresses rows by the ids of the given coalitions IN THE GIVEN ORDER (an id array, not a boolean mask)",
                       construct="set_values-order",
                       necessity="a boolean mask hands the values out in increasing id order: values[i] no longer lands on coalitions[i] unless the list happens to be sorted")
+
+
+def _check_selection_helper(prog: Program, col: Collector, gm) -> None:
+    """The helper every selective getter goes through: whole column iff no coalitions were given, else the rows of the given ids in the given order."""
+    if "_filter_out_coalitions" not in gm.methods:
+        col.note("no _filter_out_coalitions helper: the selective getters index the table themselves (G1 checks their columns)")
+        return
+    ref = gm.methods["_filter_out_coalitions"]
+    ft = fterms(prog, ref)
+    pp = ref.positional_params()
+    vals, coals = ("param", pp[1]), ("param", pp[2])
+    rets = list(ft.of_kind("return"))
+    none_test = ("cmp", "is", coals, ("const", None))
+    whole = [r for r in rets if r.value == vals]
+    picked = [r for r in rets if r.value[0] == "index" and r.value[1] == vals]
+    ok_whole = len(whole) == 1 and [(f[1], f[2]) for f in whole[0].ctx if f[0] == "if"] == [(none_test, True)]
+    ok_pick = False
+    if len(picked) == 1:
+        idx = picked[0].value[2]
+        guards = [(f[1], f[2]) for f in picked[0].ctx if f[0] == "if"]
+        ids_in_order = False
+        for t in subterms(idx):
+            if is_call_to(t, "map") and len(t[2]) == 2 and t[2][1] == coals and t[2][0][0] == "lambda":
+                ids_in_order = True
+            if t[0] == "comp" and len(t[3]) == 1 and t[3][0][1] == coals and not t[3][0][2] and t[2] == ("attr", t[3][0][0], "id"):
+                ids_in_order = True
+        reordered = any(is_call_to(t, "sorted", "set", "frozenset", "numpy.unique", "numpy.sort") for t in subterms(idx))
+        ok_pick = ids_in_order and not reordered and guards == [(none_test, False)]
+    col.check(ok_whole and ok_pick and len(rets) == 2, ref.where(), ref.short,
+              "returns the whole column iff coalitions is None, otherwise exactly values[ids of the given coalitions, in the given order] - on every path",
+              construct="selection-helper", rule="G2",
+              necessity="every selective getter answers position i for the i-th requested coalition: a shortcut that returns the column in id order (or any "
+                        "other data-dependent path) attaches values and known-flags to the wrong coalitions whenever the request is not in ascending id order")
 
 
 def rule_c17_getters(prog: Program, col: Collector) -> None:
@@ -371,6 +404,7 @@ def rule_c17_getters(prog: Program, col: Collector) -> None:
                     any(c[0] == "un" and c[1] == "~" and c[2] == ("call", ("attr", SELF, "are_values_known"), (), ()) for c in conj)
             col.check(okm, ref.where(e.node), ref.short, f"{name}: mask has 'not known' as a conjunct", construct=f"bulk-mask:{name}",
                       necessity="without the not-known conjunct a bulk bound set overwrites the value of known coalitions")
+    _check_selection_helper(prog, col, gm)
 
 
 def _conjuncts(t: Term) -> list[Term]:
@@ -434,7 +468,7 @@ def rule_c17_copy_neg_init(prog: Program, col: Collector) -> None:
         col.check(okv, ref.where(ev.node), ref.short, f"__neg__: {nm}, read from SELF (not from the object being written)",
                   construct=f"neg-{dst}", necessity="reading from the half-updated copy (swap hazard) or not swapping makes lower > upper and breaks the involution")
     own = gm.stores(ref, TABLE)
-    col.check(not own, ref.where(), ref.short, "__neg__ does not write self._values", construct="neg-writes-self", necessity="")
+    col.check(not own, ref.where(), ref.short, "__neg__ does not write self._values", construct="neg-writes-self", necessity="negation must return a new game and leave the receiver untouched (it is used on hidden games that are read again)")
 
     col.rule("G7", "set_known_values re-initialises the whole table before setting; _init_values clears everything and makes the empty coalition known with value 0", 3)
     ref = gm.method("set_known_values")
@@ -449,7 +483,7 @@ def rule_c17_copy_neg_init(prog: Program, col: Collector) -> None:
         a = sets[0].args
         okp = len(a) >= 2 and has_subterm(a[0], ("param", p[1])) and a[1] == ("param", p[2])
         col.check(okp, ref.where(sets[0].node), ref.short, "set_values receives the given values and coalitions",
-                  construct="reset-args", necessity="")
+                  construct="reset-args", necessity="set_known_values must forward exactly the given values and coalitions to set_values: otherwise values are attached to other coalitions")
     ref = gm.method("_init_values")
     ft = fterms(prog, ref)
     fills = [e for e in ft.calls("fill") if e.recv == TABLE and e.args == (("const", 0),)]
@@ -531,10 +565,15 @@ def rule_c17_writers(prog: Program, col: Collector) -> None:
             if is_global(ev.func, *INPLACE_FUNCS) and ev.args and _chain_has_values(ev.args[0]):
                 n += 1
                 col.check(inside, fref.where(ev.node), fref.short, "in-place numpy write on _values happens inside IncompleteCooperativeGame",
-                          construct="outside-writer", necessity="")
+                          construct="outside-writer", necessity="only the game class may write its table: an outside writer bypasses every setter's column and knowledge discipline")
     if n == 0:
         raise AnalysisError("no write to _values found anywhere: anchor vanished")
 
+    check_view_escape(prog, col, gm)
+
+
+def check_view_escape(prog: Program, col: Collector, gm, scope_files: set[str] | None = None) -> None:
+    """G6.  With ``scope_files`` only functions of those files are reported (hygiene use under other properties)."""
     col.rule("G6", "results of view-returning getters are never mutated in place outside the allow-list", 1)
     # which getters return views of the table: derived from the class
     views = set()
@@ -584,6 +623,8 @@ def rule_c17_writers(prog: Program, col: Collector) -> None:
         raise AnalysisError("G6 positive control failed")
     for fref in prog.all_functions():
         if fref.cls is not None and fref.cls.name == gm.cls.name:
+            continue
+        if scope_files is not None and fref.module.rel() not in scope_files:
             continue
         ft = fterms(prog, fref)
         hits = []
